@@ -119,6 +119,8 @@ type Interp struct {
 	trace      bool
 	clockLast  *Term
 	clockLo, clockHi *Term
+	sleepYields      bool // verifrt.SleepYields: leaving a sleeping thread costs no preemption
+	freeYield        bool // (set while such a sleep is being scheduled)
 	clockN     int
 	mutexes    map[*value]*mutexState
 	onceState  map[*value]*onceSt
